@@ -180,7 +180,7 @@ def generate(tier, rng):
                 j = rng.randint(54, 63) - max(abs(c).bit_length(), 1)
                 v = (Fraction(c) + rng.choice([1, -1]) * Fraction(1, 2 ** j)) / Fraction(2) ** f
                 vals.append(v)
-            car = 'np.longdouble' if k == 1 else 'arr.longdouble'
+            car = rng.choice(['np.longdouble', 'fxp']) if k == 1 else rng.choice(['arr.longdouble', 'arr.fxp'])     # (the fxp carrier holds them as raw codes of a wide source)
             if all(G.in_c01_domain(n, f, v) for v in vals) and C.ok_for(car, vals):
                 yield _line(signed, n, f, r, o, car, rng.choice(C.ROUTES if k == 1 else ('ctor', 'call', 'setval', 'tmpl')), vals)
     # subnormal doubles into formats with a negative fraction length: the scaling v*2^n_frac must not lose the sign of a non-zero value
